@@ -15,10 +15,13 @@ Answer:  model=<result> spec=<result> k=<0|1> m=<0|1> lazy=<result> errs=<codes|
          (k: trigger of finding F08b; m: invariant / monotone promotion on a top-level fn:max / fn:min; lazy / errs: the permitted outcomes, Spec.Permitted)
 result = `_` (empty) | atoms joined by `,` | ERR:<code>.
 Optional field coll=ci: the default collation is html-ascii-case-insensitive.
+fn:deep-equal on atomic sequences (phase 5):  deq=<atoms|_>;<atoms|_> [coll=ci]  (atoms joined by `,`; a:<hex>… = xs:anyURI)
+         → model=<1|0|ERR:OTHER:OverflowError|ERR:UNSUPPORTED> spec=<1|0> t=<0|1> tn=<0|1> ti=<0|1> (t: `deqTrigger`; tn / ti: some pair satisfies `nanVsHuge` / `infVsHuge`, the inputs of the repaired defects F08ab / F08ac — histogram only) b=<deciding pair>
 Kernel probes:  ckey=<hex|->,<hex|-> → string eq / lt under html-ascii-case-insensitive;  lex=<hex|-> → the xs:double of a lexical form or ERR:FORG0001;  rnd=<n>/<d> → the double nearest to n/d;  sig28=<n>/<d> → n/d at 28 significant digits.
 -/
 import EPV.Proto
 import EPV.Spec.FOSeqLazy
+import EPV.Spec.FODeepEq
 open EPV.Proto EPV.Seq
 
 def hexVal (c : Char) : Option Nat :=
@@ -202,8 +205,44 @@ def parseVars (s : String) : Option Vars :=
 def parseDoc (s : String) : Option (List String) :=
   if s == "_" || s == "" then some [] else (s.splitOn "|").mapM fun x => if x == "-" then some "" else parseStr x
 
+def parseDItem (s : String) : Option DItem :=
+  if s.startsWith "a:" then (parseStr (s.drop 2).toString).map .uri
+  else (parseAtom s).map DItem.ofAtom
+
+def parseDSeq (s : String) : Option (List DItem) :=
+  if s == "_" || s == "" then some [] else (s.splitOn ",").mapM parseDItem
+
+def kindOf : DItem → String
+  | .int _ => "int" | .dec _ _ => "dec" | .dbl .nan => "nan" | .dbl .pinf => "inf" | .dbl .ninf => "inf"
+  | .dbl _ => "dbl" | .str _ => "str" | .bool _ => "bool" | .untyped _ => "untyped" | .uri _ => "uri" | .node _ => "node"
+
+/-- which pair decided the model's answer (for the branch histogram) -/
+def deqBranch (cl : Coll) : List DItem → List DItem → String
+  | [], [] => "all-equal"
+  | [], _ :: _ => "length"
+  | _ :: _, [] => "length"
+  | a :: as, b :: bs =>
+    match deepEqPair cl a b with
+    | .ok true => deqBranch cl as bs
+    | .ok false => s!"differ:{kindOf a}/{kindOf b}"
+    | .error _ => s!"error:{kindOf a}/{kindOf b}"
+
+def answerDeq (fs : List (String × String)) : String :=
+  match (field fs "deq").splitOn ";" with
+  | [x, y] => match parseDSeq x, parseDSeq y with
+    | some xs, some ys =>
+      let cl : Coll := if field fs "coll" == "ci" then .asciiCI else .codepoint
+      let m := match deepEqual cl xs ys with
+        | .ok true => "1" | .ok false => "0"
+        | .error .overflow => "ERR:OTHER:OverflowError" | .error .unsupported => "ERR:UNSUPPORTED"
+      let s := if DSpec.atomic xs && DSpec.atomic ys then (if DSpec.deepEqual cl xs ys then "1" else "0") else "ERR:UNSUPPORTED"
+      s!"model={m} spec={s} t={if deqTrigger xs ys then 1 else 0} tn={if (xs.zip ys).any (fun p => nanVsHuge p.1 p.2) then 1 else 0} ti={if (xs.zip ys).any (fun p => infVsHuge p.1 p.2) then 1 else 0} b={deqBranch cl xs ys}"
+    | _, _ => "bad-deq"
+  | _ => "bad-deq"
+
 def answer (line : String) : String :=
   let fs := fields line
+  if (field fs "deq") != "" then answerDeq fs else
   -- kernel probes: rnd=<n>/<d>  and  sig28=<n>/<d>
   if (field fs "rnd") != "" then
     match (field fs "rnd").splitOn "/" with
